@@ -88,6 +88,19 @@ Theorem C07_threaded_shutdown_delivers : forall c sel s,
 Proof. exact threaded_shutdown_delivers. Qed.
 Print Assumptions C07_threaded_shutdown_delivers.
 
+(* faabfc0: whatever the final flush runs into (would-block, broken pipe, connection reset, any other OS
+   error), shutdown() still closes the client socket and runs the close callbacks (upstream closed) — before
+   that commit an OSError other than BrokenPipeError during _flush skipped plugin.on_client_connection_close() *)
+Theorem C07_shutdown_always_closes : forall c sel s,
+  let s' := shutdown c sel s in
+  closed (work s') = true /\
+  match upstream s with
+  | Some _ => exists u', upstream s' = Some u' /\ closed u' = true
+  | None => upstream s' = None
+  end.
+Proof. exact shutdown_always_closes. Qed.
+Print Assumptions C07_shutdown_always_closes.
+
 (* ---- BaseTcpTunnelHandler (proxy/core/base/tcp_tunnel.py; only used through --work-klass, e.g.
    examples/https_connect_tunnel.py — not reachable from the default proxy), modelled WITH
    commit 76c50ed (proposed_fixes/C07-tunnel-upstream-eof.diff).  Before that patch handle_events returned True at once when the
